@@ -271,3 +271,44 @@ class YieldInjector:
         mon.register_callback(self.TOOL, mon.events.LINE, None)
         mon.free_tool_id(self.TOOL)
         self.active = False
+
+
+class LineBudget:
+    """Logical step budget: counts LINE events executed inside the library (sys.monitoring) and raises
+    `exc` from the callback when the budget is exceeded - catches pure-CPU loops that never touch a double."""
+
+    TOOL = 5
+
+    def __init__(self, prefix, limit, exc):
+        self.prefix, self.limit, self.exc = prefix, limit, exc
+        self.count = 0
+        self.active = False
+
+    def __enter__(self):
+        mon = sys.monitoring
+        try:
+            mon.use_tool_id(self.TOOL, "vf-linebudget")
+        except ValueError:
+            return self
+        mon.register_callback(self.TOOL, mon.events.LINE, self._cb)
+        mon.set_events(self.TOOL, mon.events.LINE)
+        self.active = True
+        return self
+
+    def _cb(self, code, line):
+        if not code.co_filename.startswith(self.prefix):
+            return sys.monitoring.DISABLE
+        self.count += 1
+        if self.count > self.limit:
+            self.count = 0
+            raise self.exc(f"more than {self.limit} library lines executed in one operation")
+        return None
+
+    def __exit__(self, *a):
+        if self.active:
+            mon = sys.monitoring
+            mon.set_events(self.TOOL, 0)
+            mon.register_callback(self.TOOL, mon.events.LINE, None)
+            mon.free_tool_id(self.TOOL)
+            self.active = False
+        return False
